@@ -747,7 +747,28 @@ func (it *Interp) step(i int, op *Op) {
 		if err := it.H.Cdc.UnpackAny(&codectypes.Any{TypeUrl: any0.TypeUrl, Value: append([]byte{}, any0.Value...)}, &ev); err != nil {
 			return
 		}
+		if op.N == 6 {
+			// the same event, reported at an external height far in the future (a minority's word must not move the hub's clock)
+			far := w.Height + 1000000
+			switch e := ev.(type) {
+			case *mtypes.SendToHubEvent:
+				e.ExternalHeight = far
+			case *mtypes.TransferToChainEvent:
+				e.ExternalHeight = far
+			case *mtypes.BatchExecutedEvent:
+				e.ExternalHeight = far
+			case *mtypes.ContractCallExecutedEvent:
+				e.ExternalHeight = far
+			case *mtypes.SignerSetTxExecutedEvent:
+				e.ExternalHeight = far
+			}
+		}
 		switch e := ev.(type) {
+		case *mtypes.ContractCallExecutedEvent, *mtypes.SignerSetTxExecutedEvent:
+			if op.N != 6 {
+				return
+			}
+			_ = e
 		case *mtypes.SendToHubEvent:
 			switch op.N {
 			case 0:
@@ -756,6 +777,7 @@ func (it *Interp) step(i int, op *Op) {
 				e.CosmosReceiver = sim.UserAddr(2).String()
 			case 2, 3:
 				e.Sender = sim.ExtUser(3).Hex()
+			case 6:
 			default:
 				e.TxHash = "0xbad"
 			}
@@ -774,6 +796,7 @@ func (it *Interp) step(i int, op *Op) {
 				e.Sender = sim.ExtUser(3).Hex()
 			case 4:
 				e.Fee = e.Amount
+			case 6:
 			default:
 				e.TxHash = "0xbad"
 			}
@@ -785,6 +808,7 @@ func (it *Interp) step(i int, op *Op) {
 				e.FeePayer = sim.ExtUser(2).Hex()
 			case 3, 4:
 				e.FeePaid = e.FeePaid.MulRaw(1000).AddRaw(1)
+			case 6:
 			default:
 				e.TxHash = "0xbad"
 			}
